@@ -31,11 +31,6 @@ const (
 
 const eof = rune(-1)
 
-// Quirk switches (DESIGN §3.4): each reproduces one recorded known finding exactly.
-const (
-	QuirkTabNLBytes = "tabnl-before-decode"
-)
-
 func isC0OrSpace(r rune) bool { return r <= 0x20 }
 
 func isWindowsDriveLetter(rs []rune) bool {
@@ -148,29 +143,6 @@ func (e *Env) basicParse(inputStr string, base *URL, url *URL, override state, t
 			tr.Return = why
 		}
 		return url, true
-	}
-	if e.q(QuirkTabNLBytes) {
-		// known finding KF-C01-tabnl-bytes: tab/newline are removed from the byte string before it
-		// is decoded, which can join the two halves of a split UTF-8 sequence. (Trimming C0/space at
-		// the ends commutes with decoding, so only the removal order matters.)
-		bs := []byte(inputStr)
-		if url == nil {
-			i, j := 0, len(bs)
-			for i < j && bs[i] <= 0x20 {
-				i++
-			}
-			for j > i && bs[j-1] <= 0x20 {
-				j--
-			}
-			bs = bs[i:j]
-		}
-		out := bs[:0:0]
-		for _, c := range bs {
-			if c != 0x09 && c != 0x0A && c != 0x0D {
-				out = append(out, c)
-			}
-		}
-		inputStr = string(out)
 	}
 	in := []rune(inputStr) // invalid UTF-8 bytes become U+FFFD
 	if url == nil {
